@@ -24,7 +24,7 @@ ASSUMPTIONS = [
 
 
 def budget(tier):
-    return 1000 if tier == "quick" else 30000
+    return 5000 if tier == "quick" else 30000
 
 
 @st.composite
